@@ -1,7 +1,7 @@
 //! C05 — existence, metadata, listings and traversal agree (pure observer relations).
 
 use super::common::*;
-use crate::gen::{cfg_strategy, Profile};
+use crate::gen::Profile;
 use crate::hist::*;
 
 pub fn prop() -> HistProp {
@@ -9,7 +9,7 @@ pub fn prop() -> HistProp {
     opts.observers = true;
     HistProp {
         opts,
-        cfgs: || crate::gen::with_emb(cfg_strategy(2)),
+        cfgs: || crate::gen::with_emb(crate::gen::cfg_deep()),
         max_ops: 25,
         max_prepop: 8,
         cases_quick: 700,
